@@ -250,3 +250,37 @@ def builtin_random_and_free(tier, rng, rep):
                         rep.fail("free_words_less_than", f"{length}", {**inp, "length": length}); return
             rep.attempt("free_enumeration_runs", inp, body)
             rep.case(key=("free", tuple(gens), cls.__name__))
+
+
+@bounded(P, "exact_integer_representations", functions=F_ALL + ["geometry_tools/utils/core.py:identity"],
+         note="integer-typed representations: the image of a long positive word is an exact integer matrix (entries beyond 2^53 are not representable in float64)")
+def exact_integer_representations(tier, rng, rep):
+    rep.rule = ("int64 generators a=[[2,1],[1,1]], b=[[1,1],[0,1]]; automata over positive letters (one with a dead-end state); words of exactly 38..44 letters (entries up to 2^62); "
+                "every returned matrix compared entry by entry with the product computed in Python integers")
+    rep.bound = "4 automata x 4 lengths x 2 option sets"
+    ga, gb = np.array([[2, 1], [1, 1]], dtype=np.int64), np.array([[1, 1], [0, 1]], dtype=np.int64)
+    exact = {"a": np.array([[2, 1], [1, 1]], dtype=object), "b": np.array([[1, 1], [0, 1]], dtype=object)}
+    autos = {"a_loop": {0: {"a": 0}}, "ab_alternate": {0: {"a": 1}, 1: {"b": 0}}, "aab_cycle": {0: {"a": 1}, 1: {"a": 2}, 2: {"b": 0}},
+             "a_loop_then_dead_end": {0: {"a": 0, "b": 1}, 1: {}}}
+    for nm, d in autos.items():
+        for L in (38, 40, 42, 44):
+            for with_words in (True, False):
+                inp = {"automaton": nm, "length": L, "with_words": with_words, "dtype": "int64"}
+
+                def body():
+                    r = Representation()
+                    r["a"], r["b"] = ga.copy(), gb.copy()
+                    F = fsa.FSA(copy.deepcopy(d), [0])
+                    res = r.automaton_accepted(F, L, maxlen=False, with_words=with_words)
+                    ms, ws = res if with_words else (res, ["".join(w) for w in F.enumerate_fixed_length_paths(L)])
+                    if len(ms) != len(d[0]) or len(ws) != len(ms):
+                        rep.fail("returned_words_are_exactly_the_accepted_words", f"{len(ms)} matrices, {len(ws)} words", inp); return
+                    for got, w in zip(ms, ws):
+                        want = np.array([[1, 0], [0, 1]], dtype=object)
+                        for ch in w:
+                            want = want.dot(exact[ch])
+                        got = np.asarray(got)
+                        if not all(int(got[i, j]) == int(want[i, j]) for i in range(2) for j in range(2)):
+                            rep.fail("matrix_is_image_of_its_word", f"{w[:3]}..{w[-3:]}: got {got.tolist()} (dtype {got.dtype}) expected {want.tolist()}", inp); return
+                rep.attempt("integer_enumeration_runs", inp, body)
+                rep.case(key=(nm, L, with_words), nontrivial=True, sample=inp if (nm, L) == ("a_loop", 40) else None)
